@@ -67,6 +67,8 @@ def check_shapes(run, states, ex, jnp, tier):
                         targets.append((f"{name}x{m}", ex.RepeatedStepper(s, m)))
                     if rich:
                         targets.append((f"{name}x2x1", ex.RepeatedStepper(ex.RepeatedStepper(s, 2), 1)))
+                    # the forcing wrapper is a stepper of signature (u, f): the same decision on the state (forcing of the state's shape)
+                    targets.append((f"Forced({name})", (lambda u, fs=ex.ForcedStepper(s): fs(u, jnp.zeros_like(u)))))
                     continue
                 targets.append((name, s))
         for name, obj in targets:
@@ -302,6 +304,11 @@ def run(tier: str, seed: int) -> int:
     run_.assumptions = ["public classes enumerated from the package exports; classes that cannot be constructed are listed under 'uncovered'",
                         "the restriction table transcribes the documented constructor restrictions"]
     shutil.rmtree(work, ignore_errors=True)
+    # the composed machine (spec/Session.tla): malformed calls inside multi-step API sessions, eagerly and through jit / vmap / rollout / repeat / wrappers
+    from .. import session
+    import jax.numpy as _jnp
+    import exponax as _ex
+    session.run_for(run_, tier, seed, _ex, _jnp, ['reject'], PID)
     return run_.finish()
 
 
